@@ -73,12 +73,7 @@ def same_extent(a, b):
     if ta.eq(tb):
         return True
     # provable under the path condition?
-    s = z3.Solver()
-    s.set("timeout", 2000)
-    for h in CTX.pc:
-        s.add(h)
-    s.add(ta != tb)
-    return s.check() == z3.unsat
+    return CTX.entails(ta == tb)
 
 
 class Buffer:
@@ -648,11 +643,14 @@ def _norm_int(i, n):
     if isinstance(i, Sym):
         if not i.is_int:
             raise IndexError("only integers are valid indices")
-        # numpy wraps negatives
-        r = ite(i < 0, i + ext(n), i)
+        # numpy wraps negatives (the sign is decided per path, so the index term stays simple)
         c = i.concrete()
         if c is not None:
             r = ext(n) + c if c < 0 else Sym(c)
+        elif bool(i >= 0):
+            r = i
+        else:
+            r = i + ext(n)
         _check_index(r, n)
         return r
     raise Outside(f"index of type {type(i).__name__}")
@@ -1781,6 +1779,9 @@ class NPShim:
     def dtype(x):
         return real_np.dtype(x)
 
+    finfo = staticmethod(real_np.finfo)
+    iinfo = staticmethod(real_np.iinfo)
+
     def __getattr__(self, name):
         raise Outside(f"numpy.{name} is not modelled")
 
@@ -1910,6 +1911,9 @@ def sh_range(*args):
         raise Outside("range() over a symbolic bound (loop needs an invariant)")
     return builtins.range(*[a.__index__() if isinstance(a, Sym) else a for a in args])
 
+
+sh_int.__dtype_kind__ = "i"
+sh_float.__dtype_kind__ = "f"
 
 BUILTIN_SHIMS = {
     "len": sh_len,
